@@ -16,7 +16,9 @@ import (
 // oneofInputs: binary last-wins over all sequences of <=3 member records, and
 // JSON/text rejection of documents naming two members of one oneof.
 func oneofInputs(c *core.Ctx) {
-	for _, name := range []string{"goproto.proto.test.TestAllTypes", "goproto.proto.test3.TestAllTypes", "opaque.goproto.proto.testeditions.TestAllTypes", "hybrid.goproto.proto.testeditions.TestAllTypes", "pb3.Oneofs", "goproto.proto.test.TestOneofWithRequired"} {
+	for _, name := range []string{"goproto.proto.test.TestAllTypes", "goproto.proto.test3.TestAllTypes", "opaque.goproto.proto.testeditions.TestAllTypes", "hybrid.goproto.proto.testeditions.TestAllTypes", "pb3.Oneofs", "goproto.proto.test.TestOneofWithRequired",
+		// oneofs with several members of one Go type (string x7, int32 x2): the decoder must not confuse them
+		"conformance.ConformanceRequest", "conformance.ConformanceResponse", "protobuf_test_messages.proto2.TestAllTypesProto2.ExtensionWithOneof"} {
 		for _, f := range []univ.Flavor{univ.Gen(name), univ.Dyn(name)} {
 			f := f
 			md := f.MT.Descriptor()
